@@ -569,15 +569,22 @@ namespace
         }
       }
       if(ats.empty()) return;
+      // every third time among the size attributes only (the declared counts everything else is checked against)
+      if(simfs::pick(3, "attr_sizes_only") == 0)
+      {
+        std::vector<At> sz;
+        for(const At& x : ats) if(s.compare(x.beg, 5, "size=") == 0) sz.push_back(x);
+        if(!sz.empty()) ats.swap(sz);
+      }
       const At a = ats[simfs::pick(ats.size(), "attr")];
-      static const char* vals[12] = {"", "0", "1", "2", "7", "abc", "-1", "1 1", "0 0 0 0 0 0 0", "1.5", "x:y:z:w", " "};
-      const size_t op = simfs::pick(14, "attr_op");
+      static const char* vals[15] = {"", "0", "1", "2", "7", "abc", "-1", "1 1", "0 0 0 0 0 0 0", "1.5", "x:y:z:w", " ", "-1 4", "2 -3", "-2 -2 -2"};
+      const size_t op = simfs::pick(17, "attr_op");
       const std::string name = s.substr(a.beg, a.vbeg - 2 - a.beg);
-      if(op == 12) s.erase(a.beg, a.vend + 1 - a.beg);
-      else if(op == 13) s.insert(a.vend + 1, " " + s.substr(a.beg, a.vend + 1 - a.beg));
+      if(op == 15) s.erase(a.beg, a.vend + 1 - a.beg);
+      else if(op == 16) s.insert(a.vend + 1, " " + s.substr(a.beg, a.vend + 1 - a.beg));
       else s.replace(a.vbeg, a.vend - a.vbeg, vals[op]);
       b.assign(s.begin(), s.end());
-      log.ops += "ATTR_CHANGE(" + name + (op == 12 ? ",dropped" : op == 13 ? ",doubled" : std::string(",'") + vals[op] + "'") + ") ";
+      log.ops += "ATTR_CHANGE(" + name + (op == 15 ? ",dropped" : op == 16 ? ",doubled" : std::string(",'") + vals[op] + "'") + ") ";
       sim::count_fault("ATTR_CHANGE");
     }
 
